@@ -109,6 +109,15 @@ CHECKS = {
             "IR (verbatim copy checked by markers); two known findings (dispatch type check never rejects; rescale "
             "expansion ignores double_round) listed.",
             "symbolic execution of before/after bodies + QF_BV equivalence queries; finite enumeration for the dispatch clause", "3/C18"),
+    "C20": (OT,
+            "Merge histories of 1..5 kernel bodies (int and float binary ops with differing operand routing) are merged with the "
+            "real encode/combine API; after each merge every kernel merged so far is decoded with the real decode_abstract_graph; "
+            "a PE evaluator (IR interpreter) turns the merged PE under the decoded switch values into a term and z3 proves "
+            "PE(inputs, switches) == kernel(inputs) for all inputs (32-bit bit-vectors; floats as uninterpreted functions); "
+            "undecodable earlier kernels and switch-count mismatches (decoded / true switches / accelerator fields) are violations.",
+            "pool of 14 int and 7 float kernels, histories exhaustive to length 2, sampled (VERIF_SEED) to 3/4/5; kernels use both "
+            "data inputs (decode's documented precondition).",
+            "concrete merge/decode through the real API + symbolic evaluation of the merged PE + z3 equivalence (QF_BV/EUF)", "3/C20"),
 }
 
 NOT_YET = "check not built yet (work in progress in this round); no claim is made"
